@@ -571,3 +571,10 @@ class _Naming:
 
     def safe_class_constant_separator(self, module: Node, other: Node) -> bool:
         return module == other or module.startswith(other + self.SEPARATOR) or module.startswith(other + _Naming.SEPARATOR)
+
+
+INIT_FILE = "__init__"
+
+
+def safe_lexical_test_with_module_constant(module: Node) -> bool:
+    return module.endswith(INIT_FILE) or module.startswith(INIT_FILE + "_")
